@@ -60,10 +60,10 @@ Definition obs_eqb (a b : obs) : bool :=
   res_eqb ret_eqb (ob_ret a) (ob_ret b) && Nat.eqb (ob_len a) (ob_len b) &&
   option_eqb (pair_eqb N.eqb N.eqb) (ob_dg a) (ob_dg b).
 
-(* polynomial digest of a token list; the harness computes the same number *)
-Definition dg_mod : N := 2305843009213693951%N.
+(* polynomial digest of a token list, truncated to 61 bits; the harness computes the same number *)
+Definition dg_mask : N := 2305843009213693951%N.      (* 2^61 - 1 *)
 Definition digest (l : list K) : N :=
-  fold_left (fun h x => ((h * 1000003 + N.of_nat x + 1) mod dg_mod)%N) l 7%N.
+  fold_left (fun h x => N.land (h * 1000003 + N.of_nat x + 1) dg_mask) l 7%N.
 (* digest recorded when a read raised instead *)
 Definition dg_raised : N := 0%N.
 
